@@ -5,9 +5,12 @@ Require Import Params Iauth ReloadEq.
 Require Mon01 Local ReloadSim.
 Local Open Scope list_scope.
 
+(* The hypothesis  length (slots (tb s)) + length svs <= max_slots  is the 32-slot limit of the per-client masks (D27). *)
+
 (* after a reload the configured (service, protocol) pairs and the rule list are those of a daemon started fresh on the new
    tables, whatever the old slot vector held (stale, referenced, unconfigured or empty slots); fresh = the file's entries in order *)
-Theorem reload_is_like_a_fresh_start : forall c s svs rs t, NoDup (map fst svs) ->
+Theorem reload_is_like_a_fresh_start : forall c s svs rs t,
+  (List.length (slots (tb s)) + List.length svs <= max_slots)%nat -> NoDup (map fst svs) ->
   let s' := fst (step_ev c s (Reload svs rs t)) in let s0 := init c svs rs t in
   rules (tb s') = rules (tb s0) /\ Permutation (view (slots (tb s'))) (view (slots (tb s0))) /\ view (slots (tb s0)) = spec svs.
 Proof. exact reload_like_fresh. Qed.
@@ -37,6 +40,7 @@ Print Assumptions queries_depend_on_configured_services_only.
    about i.  CiDistinct: no two configured service names differ only by letter case - true of every configuration tree (its keys
    are compared case-insensitively, C14 parsed_tree_is_sorted) and NECESSARY: ci_distinct_needed below. *)
 Theorem newcomer_after_reload_is_treated_as_by_a_fresh_daemon : forall c s svs rs t i h,
+  (List.length (slots (tb s)) + List.length svs <= max_slots)%nat ->
   NoDup (map fst svs) -> ReloadSim.CiDistinct (map fst (spec svs)) ->
   Mon01.NoDupIds (reqs s) -> lookup i (reqs s) = None ->
   let s1 := fst (step_ev c s (Reload svs rs t)) in
@@ -49,6 +53,7 @@ Print Assumptions newcomer_after_reload_is_treated_as_by_a_fresh_daemon.
    matches case-insensitively, and slot order depends on the daemon's past): the hypothesis cannot be dropped *)
 Theorem ci_distinct_needed :
   exists c s svs rs t i h,
+    (List.length (slots (tb s)) + List.length svs <= max_slots)%nat /\
     NoDup (map fst svs) /\ Mon01.NoDupIds (reqs s) /\ lookup i (reqs s) = None /\ Forall (fun a => Local.aid a = i) h /\
     ~ Forall2 (fun o1 o0 => Permutation (map Local.eser o1) (map Local.eser o0))
         (Local.arun c (fst (step_ev c s (Reload svs rs t))) h) (Local.arun c (init c svs rs t) h).
